@@ -805,9 +805,11 @@ fn access_case(rng: &mut Rng, st: &mut Stats) {
         .arg(Arg::new("p").long("p").action(ArgAction::Set).value_parser(clap::value_parser!(std::path::PathBuf)))
         .arg(Arg::new("o").long("o").action(ArgAction::Append).value_parser(clap::value_parser!(OsString)))
         .arg(Arg::new("d").long("d").action(ArgAction::Set).default_value("dflt"))
-        .arg(Arg::new("u").long("u").action(ArgAction::Set));
-    let ids: [(&str, Ty); 8] =
-        [("s", Ty::Str), ("n", Ty::I64), ("f", Ty::Bool), ("c", Ty::U8), ("p", Ty::Path), ("o", Ty::Os), ("d", Ty::Str), ("u", Ty::Str)];
+        .arg(Arg::new("u").long("u").action(ArgAction::Set))
+        // may be present without holding a value
+        .arg(Arg::new("z").long("z").action(ArgAction::Append).num_args(0..=1).value_parser(clap::value_parser!(i64)));
+    let ids: [(&str, Ty); 9] =
+        [("s", Ty::Str), ("n", Ty::I64), ("f", Ty::Bool), ("c", Ty::U8), ("p", Ty::Path), ("o", Ty::Os), ("d", Ty::Str), ("u", Ty::Str), ("z", Ty::I64)];
     // argv: random subset
     let mut argv: Vec<OsString> = vec!["p".into()];
     let mut model: std::collections::BTreeMap<&str, Entry> = Default::default();
@@ -854,6 +856,23 @@ fn access_case(rng: &mut Rng, st: &mut Stats) {
     }
     if no > 0 {
         model.insert("o", Entry { ty: Ty::Os, occ: oocc });
+    }
+    let nz = rng.below(3);
+    let mut zocc = vec![];
+    for k in 0..nz {
+        if rng.coin() {
+            argv.push("--z".into());
+            zocc.push(vec![]);
+        } else {
+            argv.push(format!("--z={}", 40 + k).into());
+            zocc.push(vec![(40 + k).to_string()]);
+        }
+    }
+    if nz > 0 {
+        if zocc.iter().all(|o| o.is_empty()) {
+            st.count("access.present-without-values");
+        }
+        model.insert("z", Entry { ty: Ty::I64, occ: zocc });
     }
     if rng.coin() {
         argv.extend(["--d".into(), "dv".into()]);
